@@ -1,4 +1,4 @@
-import HecsModel.Lemmas.SpecRefine
+import HecsModel.Lemmas.SpecClear
 /-
   C01 — refinement to the abstract specification.
 
@@ -12,12 +12,11 @@ import HecsModel.Lemmas.SpecRefine
   So on any history on which implementation and model agree (oracle (O)), oracle (S) cannot fire either,
   and every per-operation theorem of `C01Effects` is a corollary of one simulation.
 
-  Full statement: `∀ op, op.WF → op.gensOk → ...` for all 15 operations.  Proved: 13 of them
-  (`Op.covered`), hence the suffix `_partial`.  Missing: `clear` (needs: the multiset of all stored
-  values equals the multiset the abstract state lists — the per-entity facts are `C01.clear_dropped`,
-  `clear_drops_live`, `clear_drops_only_live`; everything else about `clear` is
-  `spec_accepts_clear_partial`, which takes that multiset equality as its hypothesis) and `spawn_column_batch_at` (needs the list version of the
-  eviction argument of `accepts_spawnAt`; its per-handle facts are `C01.spawnColumnBatchAt_effect`).
+  Full statement: `∀ op, op.WF → op.gensOk → ...` for all 15 operations.  Proved: 14 of them
+  (`Op.covered`), hence the suffix `_partial`.  Missing: `spawn_column_batch_at` (needs the list version
+  of the eviction argument of `accepts_spawnAt`; its per-handle facts are
+  `C01.spawnColumnBatchAt_effect`).  `clear` is covered: the values it drops are a permutation of the
+  values the abstract state lists (`Lemmas/SpecClear.lean`, from one-row-per-live-handle).
   `Op.gensOk`: handles named by `spawn_at` have a generation ≥ 1 (they are `NonZeroU32` in hecs).
 
   Property theorems only; helper lemmas live in `Lemmas/SpecRefine.lean`.
@@ -26,7 +25,7 @@ namespace Hecs
 
 /-- the operations the refinement theorem covers so far -/
 def Op.covered : Op → Bool
-  | .spawnColumnBatchAt _ _ _ | .clear => false
+  | .spawnColumnBatchAt _ _ _ => false
   | _ => true
 
 namespace Spec
@@ -71,7 +70,8 @@ theorem spec_accepts_step_partial (s : SpecW) (w : World) (h : Rel s w) (hw : w.
   | spawnColumnBatch ts rows =>
     obtain ⟨s', a, b', c⟩ := accepts_spawnColumnBatch s w hs hh hw ts rows hop; exact ⟨s', a, b', c⟩
   | spawnColumnBatchAt _ _ _ => cases hc
-  | clear => cases hc
+  | clear =>
+    obtain ⟨s', a, b'⟩ := accepts_clear s w hs hw; exact ⟨s', a, b'⟩
   | reserveEntities n =>
     obtain ⟨s', a, b', c⟩ := accepts_reserveEntities s w hs hh hw n; exact ⟨s', a, b', c⟩
 
@@ -109,27 +109,9 @@ example :
     let ops : List Op :=
       [.spawn [(0,1)], .spawn [(1,2),(0,3)], .insert ⟨0,1⟩ [(1,4)], .reserveEntities 2, .despawn ⟨1,1⟩,
        .spawnBatch [0] [[(0,5)],[(0,6)]], .exchange ⟨0,1⟩ [0] [(2,7)], .remove ⟨0,1⟩ [2], .reserveEntity,
-       .spawnAt ⟨2,5⟩ [(0,8)], .spawnColumnBatch [0,1] [[(0,9),(1,10)]], .takeDrop ⟨0,1⟩, .reserve [3], .flush]
+       .spawnAt ⟨2,5⟩ [(0,8)], .spawnColumnBatch [0,1] [[(0,9),(1,10)]], .takeDrop ⟨0,1⟩, .reserve [3], .flush,
+       .reserveEntity, .clear, .spawn [(0,11)], .reserveEntity, .clear]
     (ops.all (fun op => decide op.WF && op.covered)) = true ∧
-    (match specRun {} World.new ops with | .ok _ => true | .error _ => false) = true := by
-  decide +kernel
-
-/-- `clear`, conditionally: the step is accepted and the successor states are related for ANY pair of
-states (no `Rel`, no invariant needed for that half) provided the values the model drops are a permutation
-of the values the abstract state lists.  That hypothesis is the whole of what `spec_accepts_step_partial`
-still lacks for `clear`; its membership halves are `C01.clear_drops_live` / `clear_drops_only_live`, the
-multiplicity half (one row per live handle, `Good.bij`) is not yet carried over to lists. -/
-theorem spec_accepts_clear_partial (s : SpecW) (w : World)
-    (hp : ((w.clear).2.dropped).Perm (s.live.flatMap (·.2))) :
-    ∃ s', apply s .clear (Hecs.step w .clear).2.res (Hecs.step w .clear).2.dropped = .ok s' ∧
-      Rel s' (Hecs.step w .clear).1 :=
-  accepts_clear_of_perm s w hp
-
-/-- non-vacuity: after a concrete history the hypothesis of `spec_accepts_clear_partial` holds (decided by
-evaluation) and `clear` is accepted by the specification run -/
-example :
-    let ops : List Op := [.spawn [(0,1)], .spawn [(1,2),(0,3)], .insert ⟨0,1⟩ [(1,4)], .reserveEntity, .clear,
-                          .spawn [(0,7)]]
     (match specRun {} World.new ops with | .ok _ => true | .error _ => false) = true := by
   decide +kernel
 
